@@ -177,12 +177,15 @@ def build_model(ctx, kind, idx, thorough=False, label="model"):
     rng = ctx.rng(f"c16:{label}:{kind}:{idx}")
     with warnings.catch_warnings():
         warnings.simplefilter("ignore")
+        # two models out of three get a guaranteed NON-ZERO prior mean (constant / linear): centring bugs need one
+        mk = ("constant", "linear", None)[idx % 3]
         if kind == "single":
             model, lik, tx, ty, desc = G.build_exact_gp(
-                rng, n=rng.randint(2, 6), batch_kind="none", lik_kind=rng.choice(["gaussian", "gaussian", "fixed"]))
+                rng, n=rng.randint(2, 6), batch_kind="none", lik_kind=rng.choice(["gaussian", "gaussian", "fixed"]),
+                mean_kind=mk)
         elif kind == "batch":
             model, lik, tx, ty, desc = G.build_exact_gp(rng, n=rng.randint(2, 5), batch_kind="model", b=2,
-                                                        lik_kind="gaussian")
+                                                        lik_kind="gaussian", mean_kind=mk)
         else:
             model, lik, tx, ty, desc = G.build_multitask_gp(rng, n=rng.randint(2, 3), t=2, lik_rank=rng.choice([0, 0, 1]))
         test_x = G.random_test_x(rng, desc, s_max=3)
@@ -284,6 +287,43 @@ def drive(ctx, lines, workers=4):
 
 # ------------------------------------------------------------------ real side
 
+_MUTATIONS = []        # drained by run_real / derived_fantasy: inputs that an evaluation changed
+
+
+def _snap(named):
+    return [(nm, t, t.detach().clone()) for nm, t in named if t is not None]
+
+
+def _same(a, b):
+    import torch
+    if a.shape != b.shape:
+        return False
+    if a.is_floating_point():
+        return bool(torch.equal(torch.isnan(a), torch.isnan(b)) and
+                    torch.equal(torch.nan_to_num(a.detach(), nan=0.0), torch.nan_to_num(b, nan=0.0)))
+    return bool(torch.equal(a.detach(), b))
+
+
+def _model_tensors(model, extra=()):
+    named = [("model.train_targets", getattr(model, "train_targets", None))]
+    for i, t in enumerate(getattr(model, "train_inputs", None) or ()):
+        named.append((f"model.train_inputs[{i}]", t))
+    return named + list(extra)
+
+
+def _check_unchanged(snap, policy, what):
+    """Invariant: an evaluation under any policy leaves the training data and every tensor handed in bit-identical."""
+    for nm, t, before in snap:
+        if not _same(t, before):
+            diff = float((torch_nan0(t) - torch_nan0(before)).abs().max()) if t.shape == before.shape else float("inf")
+            _MUTATIONS.append({"policy": policy, "tensor": nm, "during": what, "max_change": diff})
+
+
+def torch_nan0(t):
+    import torch
+    return torch.nan_to_num(t.detach().to(torch.float64), nan=0.0)
+
+
 def predict(model, test_x, cell, desc, light=False):
     """One prediction on the (un-reset) model object under the cell {policy, fast, eager, detach}.
     `light`: only run the call and evaluate the covariance (predictions whose values nobody reads: they fill caches)."""
@@ -300,11 +340,14 @@ def predict(model, test_x, cell, desc, light=False):
             st.enter_context(S.max_eager_kernel_size(lim))
         if cell.get("detach") is not None:
             st.enter_context(S.detach_test_caches(bool(cell["detach"])))
+        snap = _snap(_model_tensors(model, [("test inputs", test_x)]))
         p = model(test_x)
         if light:
             p.covariance_matrix
+            _check_unchanged(snap, cell["policy"], "model(x*)")
             return None
         mean, cov, var = p.mean.detach(), p.covariance_matrix.detach(), p.variance.detach()
+        _check_unchanged(snap, cell["policy"], "model(x*) + covariance_matrix + variance")
         keys = sorted({k[1][0] for k in getattr(model.prediction_strategy, "_memoize_cache", {})
                        if isinstance(k, tuple) and k[0] == "mean_cache" and len(k[1]) == 1})
     tail = 2 if t > 1 else 1
@@ -315,13 +358,19 @@ def predict(model, test_x, cell, desc, light=False):
             "keys": keys, "tail": tail}
 
 
+def _drain():
+    out = list(_MUTATIONS)
+    del _MUTATIONS[:]
+    return out
+
+
 def make_runs(rng, seqs, quick, force=None):
     """The runs (one = arrival + policy sequence with a settings cell per step) of one (model, pattern).
     `force` restricts the cells (used by `search`): dict with optional lists `entries`, `fast`, `eager`, `detach`."""
     force = force or {}
     runs = []
     seq_list = list(seqs)
-    if quick:
+    if quick and not force.get("all_seqs"):
         core = [s for s in seq_list if s[0] != "ignore"]
         ign = [s for s in seq_list if s[0] == "ignore"]
         rng.shuffle(core)
@@ -395,9 +444,16 @@ def run_real(ctx, model, lik, tx, ty, desc, test_x, obs_full, union, runs, prev_
                     predict(model, test_x, cell, desc, light=True)
                 except Exception:
                     ctx.count("pre-update-prediction-raised")
-            target = copy.deepcopy(model)
-            target.eval()
-            target.likelihood.eval()
+            try:
+                target = copy.deepcopy(model)
+                target.eval()
+                target.likelihood.eval()
+            except Exception as e:
+                rec["steps"] = [(c["policy"], {"error": f"copy.deepcopy(model): {type(e).__name__}: {str(e)[:200]}"})
+                                for c in run["cells"]]
+                rec["mutations"] = _drain()
+                out["seq"].append(rec)
+                continue
         else:
             # the object has ANOTHER pattern (and other target values), predicts under some policies, and only then
             # receives the pattern under test: whatever it cached before must not survive in any output
@@ -423,6 +479,7 @@ def run_real(ctx, model, lik, tx, ty, desc, test_x, obs_full, union, runs, prev_
             except Exception as e:
                 rec["steps"] = [(c["policy"], {"error": f"set_train_data: {type(e).__name__}: {str(e)[:200]}"})
                                 for c in run["cells"]]
+                rec["mutations"] = _drain()
                 out["seq"].append(rec)
                 model.set_train_data(tx, y_nan, strict=False)
                 continue
@@ -438,6 +495,7 @@ def run_real(ctx, model, lik, tx, ty, desc, test_x, obs_full, union, runs, prev_
             except Exception as e:
                 steps.append((pol, {"error": f"{type(e).__name__}: {str(e)[:200]}"}))
         rec["steps"] = steps
+        rec["mutations"] = _drain()
         out["seq"].append(rec)
     if not extras:
         model.set_train_data(tx, ty, strict=False)
@@ -452,6 +510,7 @@ def run_real(ctx, model, lik, tx, ty, desc, test_x, obs_full, union, runs, prev_
         warnings.simplefilter("ignore")
         for pol in ("mask", "fill"):
             with S.observation_nan_policy(pol):
+                snap = _snap(_model_tensors(model, [("targets handed in", y_nan), ("inputs handed in", tx)]))
                 try:
                     v = mll(model(tx), y_nan)
                     out["mll_" + pol] = _np(v.detach().reshape(-1))
@@ -459,6 +518,7 @@ def run_real(ctx, model, lik, tx, ty, desc, test_x, obs_full, union, runs, prev_
                     out["rejected"].append(f"mll:{pol}:{str(e)[:80]}")
                 except Exception as e:
                     out["mll_" + pol + "_error"] = f"{type(e).__name__}: {str(e)[:200]}"
+                _check_unchanged(snap, pol, "ExactMarginalLogLikelihood")
                 prior = model(tx)
                 for fn in ("expected_log_prob", "log_marginal"):
                     try:
@@ -466,6 +526,8 @@ def run_real(ctx, model, lik, tx, ty, desc, test_x, obs_full, union, runs, prev_
                         out[f"{fn}_{pol}"] = _np(v.detach())
                     except Exception as e:
                         out[f"{fn}_{pol}_error"] = f"{type(e).__name__}: {str(e)[:200]}"
+                    _check_unchanged(snap, pol, f"likelihood.{fn}")
+    out["mutations"] = _drain()
     model.eval()
     lik.eval()
     # ---- fresh model on the observed subset (single-output, whole points deleted)
@@ -574,9 +636,12 @@ def derived_fantasy(ctx, model, lik, tx, ty, desc, test_x, item, sel, quick):
                 predict(model, test_x, cell, desc, light=True)
             with warnings.catch_warnings(), S.observation_nan_policy(fant_pol), S.fast_pred_var(fast):
                 warnings.simplefilter("ignore")
+                snap = _snap(_model_tensors(model, [("fantasy inputs", xf), ("fantasy targets", yf_nan)]))
                 fant = model.get_fantasy_model(xf, yf_nan, **kw)
+                _check_unchanged(snap, fant_pol, "get_fantasy_model")
         except Exception as e:
             rec["steps"] = [(c["policy"], {"error": f"get_fantasy_model: {type(e).__name__}: {str(e)[:200]}"}) for c in cells]
+            rec["mutations"] = _drain()
             out["seq"].append(rec)
             continue
         steps, used = [], []
@@ -589,8 +654,9 @@ def derived_fantasy(ctx, model, lik, tx, ty, desc, test_x, item, sel, quick):
             except Exception as e:
                 steps.append((cell["policy"], {"error": f"{type(e).__name__}: {str(e)[:200]}"}))
         rec["steps"] = steps
+        rec["mutations"] = _drain()
         out["seq"].append(rec)
-    model.set_train_data(tx, ty, strict=False)
+    model.set_train_data(tx, ty.clone(), strict=False)
     G.reset_caches(model)
     item2["real"] = out
     return item2
@@ -669,8 +735,15 @@ def correspondence(ctx, extra=False):
             chosen = derived_selection(items, quick)
             for k, item in enumerate(items):
                 lines += item_lines(item)
-                runs = make_runs(rng, seqs, quick)
-                item["real"] = run_real(ctx, model, lik, tx, ty, desc, test_x, item["obs_full"], item["union"], runs, valid)
+                # pattern "none" (a policy active, nothing missing): EVERY policy sequence, in every tier
+                runs = make_runs(rng, seqs, quick, {"all_seqs": True} if item["obs_full"].all() else None)
+                try:
+                    item["real"] = run_real(ctx, model, lik, tx, ty, desc, test_x, item["obs_full"], item["union"], runs, valid)
+                except Exception as e:
+                    del _MUTATIONS[:]
+                    ctx.broke("correspondence", "harness-error:run_real", f"{type(e).__name__}: {str(e)[:300]} on {kind}{idx}")
+                    model.set_train_data(tx, ty.clone(), strict=False)
+                    continue
                 work.append(item)
                 if k in chosen:
                     d = derived_fantasy(ctx, model, lik, tx, ty, desc, test_x, item, rng.randrange(1 << 30), quick)
@@ -777,10 +850,19 @@ def compare(ctx, item, replies):
         ctx.count("discarded_cond>1e6")
         return
     patname = "".join("1" if v else "0" for v in item["pat"])
-    # ---- predictions along every policy sequence on one object
+    # ---- invariant: no evaluation under any policy changes the training data or a tensor handed in
+    for m in real.get("mutations", []):
+        ctx.fail(f"{kp}mutates-train-targets:{m['policy']}",
+                 f"{m['during']} under '{m['policy']}' changed {m['tensor']} in place (max change {m['max_change']:.3e}) on {where}",
+                 rp({"observable": "mutation", **m}))
     for run in real["seq"]:
         seqname = ">".join(run["seq"]) + (":fast" if run["fast"] else ":exact")
         seqname += arrival_text(run)
+        for m in run.get("mutations", []):
+            ctx.fail(f"{kp}mutates-train-targets:{m['policy']}",
+                     f"{m['during']} under '{m['policy']}' changed {m['tensor']} in place (max change {m['max_change']:.3e}) "
+                     f"on {where} seq={seqname}",
+                     rp({"observable": "mutation", "sequence": run["seq"], "fast": run["fast"], "run": _run_payload(run), **m}))
         runkey = run["entry"] + "|" + ",".join(c["eager"] + {None: "", False: "a", True: "d"}[c.get("detach")]
                                                 for c in run["cells"])
         for step, (pol, r) in enumerate(run["steps"]):
